@@ -94,12 +94,23 @@ def specCfg (frame : Cfg) (s : St) : Cfg :=
     + b2n s.ronly * 128 + b2n s.nnest * 256
   { frame with opt := opt, fifo := s.fifo, sym := s.sym, ljc := s.delim, enc := s.enc, id := s.id, cat := s.cat }
 
+/-- the option words of what the receiver holds (nested Stacks / Conditions, a Condition's Stack expression): they are theirs, and no
+option call on the receiver touches them -/
+def nestOpts (isCond : Bool) (xs : List Val) (ex : Val) : String :=
+  let one (deep : Bool) (v : Val) : List Nat :=
+    match v with
+    | .stk _ c _ => [c.opt]
+    | .cnd _ c _ _ e => c.opt :: (if deep then (match e with | .stk _ c2 _ => [c2.opt] | .cnd _ c2 _ _ _ => [c2.opt] | _ => []) else [])
+    | _ => []
+  let l := if isCond then one false ex else (xs.map (one true)).flatten
+  " NEST:" ++ ",".intercalate (l.map toString)
+
 /-- what the settings look like in `String()` (C18: "… or reflected in String()") -/
 def strTok (isCond : Bool) (c : Cfg) (xs : List Val) (kw : Text) (op : Op) (ex : Val) (spec : Bool) : String :=
-  if isCond then s!" STR:{hx (condString closures c kw op ex)}"
+  if isCond then s!" STR:{hx (condString closures c kw op ex)}{nestOpts true xs ex}"
   else
     let st : Stk := { cfg := c, xs := xs }
-    s!" STR:{hx (if spec then Grammar.canon closures st else st.String closures)}"
+    s!" STR:{hx (if spec then Grammar.canon closures st else st.String closures)}{nestOpts false xs ex}"
 
 partial def optsModel (isCond : Bool) (c : Cfg) (n : Nat) (ex : Val) (xs : List Val) (kw : Text) (op : Op) (calls : List (Option OptSpec.Call)) (acc : List String) : List String :=
   match calls with
